@@ -113,6 +113,11 @@ def run(repo, rep, tier):
 
     close_always_releases(repo, rep)
     state_is_per_instance(repo, rep)
+    from ..argorder import argument_order_rule
+    argument_order_rule(repo, rep, 'C14.R13',
+                        ('pywbem_mock/_mainprovider.py',
+                         'pywbem_mock/_wbemconnection_mock.py',
+                         'pywbem/_cim_operations.py'), 300)
     mp = repo.cls(MAIN, 'MainProvider')
     # ---------------- R1 who may write ----------------------------------
     allowed = {'_open_response': {'insert'}, '_pull_response': {'delete'},
@@ -338,17 +343,46 @@ def run(repo, rep, tier):
                             'slice is taken after the deletion (objects '
                             'lost or delivered twice)' % maxvar)
                 break
-    # CloseEnumeration: delete under membership test else raise
-    ok = False
-    for n in walk_no_nested(cls_.node):
-        if isinstance(n, ast.If) and isinstance(n.test, ast.Compare) and \
-                isinstance(n.test.ops[0], ast.In) and \
-                _is_ctx_table(n.test.comparators[0]) and \
-                any(isinstance(x, ast.Delete) for x in n.body) and \
-                always_exits(n.orelse) and \
-                'CIM_ERR_INVALID_ENUMERATION_CONTEXT' in norm(
-                    n.orelse[-1], 500):
-            ok = True
+    # CloseEnumeration: every path that returns has removed the context it
+    # knows to be in the table; every path that refuses because the context
+    # is not in the table does so with INVALID_ENUMERATION_CONTEXT
+    from ..paths import return_paths
+    cpaths = return_paths(cls_, with_raises=True)
+    if not cpaths:
+        raise AnalysisError('CloseEnumeration: paths cannot be enumerated')
+
+    def member(pth):
+        """True / False / None: the path knows ctx in / not in the table"""
+        for t, pol in pth.facts:
+            if isinstance(t, ast.Compare) and len(t.ops) == 1 and \
+                    _is_ctx_table(t.comparators[0]):
+                if isinstance(t.ops[0], ast.In):
+                    return pol
+                if isinstance(t.ops[0], ast.NotIn):
+                    return not pol
+        return None
+    ok = True
+    n_ret = n_ref = 0
+    for pth in cpaths:
+        m = member(pth)
+        if pth.raised is None:
+            n_ret += 1
+            dl = [st for st in pth.effects if isinstance(st, ast.Delete) and
+                  isinstance(st.targets[0], ast.Subscript) and
+                  _is_ctx_table(st.targets[0].value)]
+            pops = [c for st in pth.effects for c in ast.walk(st)
+                    if isinstance(c, ast.Call) and
+                    isinstance(c.func, ast.Attribute) and
+                    c.func.attr == 'pop' and _is_ctx_table(c.func.value)]
+            if m is not True or not (dl or pops):
+                ok = False
+        elif m is False:
+            n_ref += 1
+            if 'CIM_ERR_INVALID_ENUMERATION_CONTEXT' not in norm(
+                    pth.raised, 500):
+                ok = False
+    if not n_ret or not n_ref:
+        ok = False
     r1.ob(ok, 'CloseEnumeration:shape')
     if not ok:
         rep.finding(r1, cls_.qualname, 'if ctx in table: del ... else raise',
@@ -570,8 +604,10 @@ def run(repo, rep, tier):
         r5.sites += 1
         r5.functions.add(f.fq)
         first = None
-        for s in f.body:
-            if isinstance(s, ast.Assert):
+        from ..inline import Flat
+        from ..cfg import assertion_only
+        for s in Flat(f, keep=('_validate_pull_operations_enabled',)).body:
+            if assertion_only(s):
                 continue
             first = s
             break
@@ -726,11 +762,23 @@ def close_always_releases(repo, rep):
                     % norm(c, 50))
     # provider: before the delete only the unknown-context refusal
     facts = stmt_facts(pv.node)
-    dels = [st for st in facts if isinstance(st, ast.Delete) and
-            'enumeration_contexts' in norm(st)]
-    if len(dels) != 1:
-        raise AnalysisError('CloseEnumeration: removal of the context not '
-                            'found')
+    dels = [st for st in facts if 'enumeration_contexts' in norm(st) and
+            (isinstance(st, ast.Delete) or
+             (isinstance(st, (ast.Expr, ast.Assign)) and
+              isinstance(st.value, ast.Call) and
+              isinstance(st.value.func, ast.Attribute) and
+              st.value.func.attr == 'pop'))]
+    if len(dels) > 1:
+        raise AnalysisError('CloseEnumeration: more than one removal of the '
+                            'context')
+    if not dels:
+        r10.sites += 1
+        r10.ob(False, pv.qualname, {'removal': None})
+        rep.finding(r10, pv.qualname, 'del self.enumeration_contexts[ctx]',
+                    'never-released', MAIN, pv.node.lineno,
+                    'CloseEnumeration never removes the context from the '
+                    'table')
+        return
     r10.sites += 1
     bad = []
     for st, (fs, _t) in facts.items():
